@@ -104,7 +104,7 @@ func (prom *Prometheus) RangeQuery(ctx context.Context, expr string, params Rang
 
 	var slices []TimeRange
 	queryStep := (time.Hour * 2).Round(step)
-	if queryStep > lookback {
+	if queryStep <= 0 || queryStep > lookback {
 		queryStep = lookback
 		slices = append(slices, TimeRange{Start: start, End: end})
 	} else {
